@@ -8,6 +8,7 @@
   chunking, empty reads included).
 -/
 import Hy.Proofs.Frame
+import Hy.Gen.SitesC04
 set_option linter.unusedSimpArgs false
 namespace Hy.Props.C04
 open Hy Hy.Frame Hy.Varint
@@ -23,6 +24,21 @@ theorem writer_pad_in_range :
     Gen.tcpRequestPaddingMax ≤ Gen.MaxPaddingLength + 1 ∧
     Gen.tcpResponsePaddingMin ≤ Gen.tcpResponsePaddingMax ∧
     Gen.tcpResponsePaddingMax ≤ Gen.MaxPaddingLength + 1 := by decide
+
+/-- Every place of the framing code that can fault at run time (index, slice, make, conversion,
+    panic — counted per function from the CURRENT source by harness/gen) is accounted for by the
+    model: `ReadTCPRequest`/`ReadTCPResponse` — one `make` each, sized by the checked length
+    (`alloc_bounded`, `overlimit_*_rejected_early`), the `status[0]` index on a 1-byte array;
+    writers — `make` of the exact frame size and `varintPut` into it (sizes by `quicvarint.Len`,
+    differential `wrreq`/`wrresp` compares every byte); `varintPut` panics only above 2^62−1, which
+    the callers' int→uint64 lengths cannot reach.  A new site in these functions changes the table
+    and fails here. -/
+theorem sites_match : Gen.SitesC04.sites = [
+    ("core/internal/protocol/proxy.go:ReadTCPRequest", [0, 0, 1, 0, 1, 0, 0]),
+    ("core/internal/protocol/proxy.go:ReadTCPResponse", [1, 1, 1, 0, 1, 0, 0]),
+    ("core/internal/protocol/proxy.go:WriteTCPRequest", [0, 4, 1, 0, 7, 0, 0]),
+    ("core/internal/protocol/proxy.go:WriteTCPResponse", [2, 4, 1, 0, 6, 0, 0]),
+    ("core/internal/protocol/proxy.go:varintPut", [15, 0, 0, 0, 15, 1, 0])] := by decide
 
 /-! ### chunking is irrelevant (every split of the byte stream into reads) -/
 theorem chunking_irrelevant_request (cs : List Bytes) :
